@@ -14,12 +14,14 @@ import emit as E
 import bondops_common as BC
 
 PROP = 'C12'
-COQ_IMPORTS = ['PT.Base.Scalar', 'PT.Base.Field', 'PT.Base.Mx', 'PT.Model.BondOps']
+COQ_IMPORTS = ['PT.Base.Scalar', 'PT.Base.Field', 'PT.Base.Mx', 'PT.Model.BondOps', 'PT.Model.Tensor', 'PT.Model.MPSOps', 'PT.Model.SplitMps']
 COQ_PREAMBLE = E.QC_PREAMBLE + 'Definition cmx := @mkmx CQ.\n'
 FORM = ('R (replay): numpy.linalg.svd answers and the numpy.argsort permutation recorded per call; retained / block_svd evaluated '
         'by vm_compute over Q resp. Q(i) with the recorded table (lookup by exact argument) as oracle; u, s, v, q, the kept index set and '
         'the list of oracle arguments compared exactly; tolerance-boundary cases flagged ambiguous by exact arithmetic are skipped; '
-        'malformed inputs: both sides must reject.  split_mps_tensor: its inner split_matrix_svd call (arguments checked against an independent reshape / charge sum) is replayed through the model; the distribution of the singular values (left/right/sqrt) is checked numerically')
+        'malformed inputs: both sides must reject.  split_mps_tensor: its inner split_matrix_svd call (arguments checked against an independent reshape / charge sum) is replayed through block_svd, '
+        'AND the composed model split_mps_tensor_full (Model/SplitMps.v: reshape + block_svd + distribution + reshape back) is run on the tensor with the recorded svd / argsort answers and the recorded numpy.sqrt values: '
+        'qbond and all shapes compared exactly, the entries of A0 and A1 within 1e-12 (1 + |A|) in exact rational arithmetic (they went through one float multiplication by sigma)')
 RULE = ('quick: retained_bond_indices on dyadic spectra (sum of squares 4, 16, 64; all k/16 boundary tolerances), generic, tied and zero spectra; '
         'split_matrix_svd on all shapes 1..6 x 1..6 with charge vectors from every class (sorted / unsorted on either or both sides / constant / '
         'disjoint / partly shared / negative / >= 2^16), real and complex, integer and generic binary64 entries, decaying / degenerate / '
@@ -38,10 +40,18 @@ PARTIAL = ('proved for all inputs (Properties/C12.v, all closed under the global
            'non-zero block-sparse A, 0 <= tol < 1, oracles meeting their contracts on the issued calls): no failure, s = S[K] with K = retained S, isometric u and v, '
            'kept values > 0, block sparsity under the returned charges, lengths, tol = 0 => (u*s) v = A, and ||A - (u*s) v||_F^2 = sum of discarded sigma^2; '
            'C12_block_svd_zero (zero matrix: no failure, product zero). '
-           'Not modelled, validated numerically on every generated input only: split_mps_tensor (left/right/sqrt), non-mutation of the input array (byte snapshot), '
-           'that the code computes what the model computes (exact agreement), that LAPACK / argsort meet their contracts (measured).')
+           'split_mps_tensor (Model/SplitMps.v split_mps_tensor_full = reshape + block_svd + distribution of sigma + reshape back; C12_split_mps_agrees: it is the '
+           'Model/MPSOps.v model of C03 with the split oracle instantiated by block_svd): C12_split_mps_spec, for every ordered field, all d0, d1 >= 1, all charge '
+           'vectors, every non-zero block-sparse two-site tensor, 0 <= tol < 1, left/right/sqrt, oracles meeting dsvd_ok / pick_ok on the issued calls and, for sqrt only, '
+           'ksqrt(x)^2 = x on the kept values: no failure; shapes (d0, D0, k), (d1, k, D2) with k = len qbond = number of kept singular values, 1 <= k <= min(d0 D0, d1 D2); '
+           'A0 block sparse under (qd0, qD0, qbond), A1 under (qd1, qbond, qD2); ||A||^2 = sum S^2; sum over entries |A - merge(A0, A1)|^2 = sum of discarded sigma^2 <= tol ||A||^2; '
+           'tol = 0 => merge(A0, A1) = A; right: A0 left isometry; left: A1 right isometry; sqrt: both Gram matrices = diag(kept sigma). C12_split_mps_zero (zero tensor, any tol / '
+           'distribution / argsort / sqrt oracle: no failure, merge = 0 = A). C12_split_mps_nonvacuous: rational 2x2x2x2 instance with a genuine truncation for each distribution. '
+           'Not modelled, validated on every generated input only: non-mutation of the input array (byte snapshot), '
+           'that the code computes what the models compute (exact agreement for split_matrix_svd; qbond / shapes exact and entries within 1e-12 for split_mps_tensor), '
+           'that LAPACK / argsort / numpy.sqrt meet their contracts (measured).')
 ASSUMPTIONS = ['binary64 values are read as exact rationals; (s/w)**2 is modelled as s^2/w^2 and norm(s) == 0 as sum s^2 == 0 (no underflow on generated inputs)',
-               'split_mps_tensor is not modelled in Coq (it needs sqrt): its clauses are validated numerically only']
+               'numpy.sqrt on the kept singular values is an oracle of the model (ksqrt); the sqrt theorem assumes ksqrt(x)^2 = x exactly on the kept values (binary64 sqrt meets it to 1 ulp; measured)']
 
 DYADIC = [[1, 1, 1, 1], [2, 2, 2, 2], [3, 2, 1, 1, 1], [2, 2, 2, 1, 1, 1, 1], [4], [2, 2, 2, 2, 0, 0], [6, 4, 2, 2, 2],
           [7, 3, 2, 1, 1], [5, 5, 3, 2, 1], [4, 4, 4, 4], [1, 1, 1, 1, 2, 2, 2], [2, 0, 0], [1, 1, 1, 1, 0], [3, 2, 1, 1, 1, 0]]
@@ -525,11 +535,38 @@ def _tbl(r):
                   for c in r.get('calls', [])])
 
 
+def _site(mats, shape):
+    return E.lst([_mx(BC.mat_from_json2(a, shape)) for a in mats])
+
+
+def _coq_split_full(case, r):
+    """the composed model split_mps_tensor_full on the tensor itself, with the recorded svd / argsort / sqrt answers"""
+    ir = r['inner']
+    d0, d1, D0, D2 = len(case['qd0']), len(case['qd1']), len(case['qD0']), len(case['qD2'])
+    k = len(r['qbond'])
+    if r['shapes'] != [[d0, D0, k], [d1, k, D2]]:
+        return 'false'
+    sig = [float(x) for x in ir['s']]
+    sq = [float(x) for x in np.sqrt(np.array(sig))]
+    sqtbl = E.lst([E.pair(E.qc(a), E.qc(b)) for a, b in zip(sig, sq)])
+    nrm = float(np.sqrt(sum(x[0] ** 2 + x[1] ** 2 for t in case['T'] for row in t for x in row)))
+    eps = 1e-12 * (1 + nrm)
+    distr = {'left': 0, 'right': 1, 'sqrt': 2}[case['distr']]
+    expect = '(Some (%s, %s, %s))' % (_site(r['A0'], (D0, k)), _site(r['A1'], (k, D2)), E.zlist(r['qbond']))
+    return 'check_split_full (F:=QcF) %s %s %s %s %s %s %s %s %d%%nat %s %s %s' % (
+        _tbl(ir), E.natlist(ir.get('sort_idx', [])), sqtbl, _site(case['T'], (D0, D2)),
+        E.zlist(case['qd0']), E.zlist(case['qd1']), E.zlist(case['qD0']), E.zlist(case['qD2']), distr,
+        E.qc(case['tol']), E.qc(eps), expect)
+
+
 def coq(case, r):
     if case['kind'] == 'mps':
         if 'inner' not in r:
             return None
-        return coq(r['inner_case'], r['inner'])
+        inner = coq(r['inner_case'], r['inner'])
+        if inner is None:
+            return None
+        return '(%s) && (%s)' % (inner, _coq_split_full(case, r))
     if 'error' not in r and _ambiguous(case, r):
         return None
     if case['kind'] == 'ret':
